@@ -101,3 +101,14 @@ package polynomial
 //@ pred polydeg(p *Exponent) := ite(p.IsConstant, len(p.coefficients), len(p.coefficients) - 1)
 //@ func (*Exponent).Evaluate
 //@   summary ptval(result) == evalpt(p, scval(x))
+
+// ---- Lagrange coefficients (C01, C02): lagr(D, x_j) names the coefficient of the point x_j in the interpolation
+// domain D (abstract value of the identifier slice); the closed formula is the contract of `lagrange` below.
+//@ func Lagrange
+//@   nopanic[C05]
+//@   requires group != nil
+//@   modifies nothing
+//@   allocates
+//@   ensures result != nil
+//@   summary forall(j, party.ID, indom(result, j) ==> (result[j] != nil && scval(result[j]) == lagr(idsval(interpolationDomain), idsc(j))))
+//@   summary forall(j, party.ID, inslice(interpolationDomain, j) ==> indom(result, j))
